@@ -80,7 +80,7 @@ class TextScenario(Scenario):
         self.pre = pre
         self.source = Stream.from_textfile(fileobj, poll_interval=POLL, delimiter=self.delim,
                                            from_end=p.get("from_end", False), loop=self.ioloop, asynchronous=True)
-        self.source.sink(self.make_sink_fn("sync", "S"))
+        self.source.sink(self.make_sink_fn(p.get("kind") or "sync", "S"))
         self.source.start()
         self.chunks = list(p["chunks"])
 
@@ -190,8 +190,16 @@ def _detail(scen):
     return ""
 
 
+def glob_match(pattern, name):
+    """glob semantics for the fake directory: component by component, * never crosses a separator"""
+    import fnmatch
+    pp, nn = pattern.split("/"), name.split("/")
+    return len(pp) == len(nn) and all(fnmatch.fnmatchcase(n, p) for p, n in zip(pp, nn))
+
+
 class DirScenario(Scenario):
     close_intervals = 3.0
+    free_events = ("start", "stop")
 
     def __init__(self, **p):
         super().__init__(**p)
@@ -199,6 +207,8 @@ class DirScenario(Scenario):
         self.present = list(p.get("pre", ()))
         self.to_create = list(p["create"])
         self.nglob = 0
+        self.lifecycle_calls = 0
+        self.tmpdir = None
 
     def site(self):
         return "filenames"
@@ -211,36 +221,71 @@ class DirScenario(Scenario):
         scen = self
         orders = self.params["orders"]
 
+        pattern = self.params.get("pattern") or "/fake/*.csv"
+        if pattern == "<dir>":
+            # a plain directory path (it must exist: the source asks os.path.isdir): every file in it matches
+            self.tmpdir = tempfile.mkdtemp(prefix="vf_c17d_")
+            pattern = self.tmpdir
+            self.present = [x.replace("/fake", self.tmpdir) for x in self.present]
+            self.to_create = [x.replace("/fake", self.tmpdir) for x in self.to_create]
+
         def fake_glob(path):
-            names = sorted(scen.present)
+            names = sorted(x for x in scen.present if glob_match(path, x))
             perm = orders[scen.nglob % len(orders)]
             scen.nglob += 1
             # answer in the permutation chosen for this poll (rotated by index)
             out = [names[i] for i in _perm(len(names), perm)]
-            scen.log.append(("glob", "dir", scen.loop.time(), tuple(out)))
+            scen.log.append(("glob", "dir", scen.loop.time(), tuple(scen._rel(x) for x in out)))
             return out
         ss.glob = fake_glob
-        self.source = Stream.filenames("/fake/*.csv", poll_interval=POLL, loop=self.ioloop, asynchronous=True)
+        self.source = Stream.filenames(pattern, poll_interval=POLL, loop=self.ioloop, asynchronous=True)
         self.source.sink(self.make_sink_fn(self.params.get("kind", "sync"), "S"))
         self.source.start()
 
     def finish(self):
         self._ss.glob = self._real_glob
+        if self.tmpdir:
+            shutil.rmtree(self.tmpdir, ignore_errors=True)
 
     def extra_events(self):
+        evs = []
         if self.to_create:
-            return [("create(%s)" % self.to_create[0], self._create)]
-        return []
+            evs.append(("create(%s)" % self._rel(self.to_create[0]), self._create))
+        if self.lifecycle_calls < self.params.get("lifecycle", 0):
+            evs.append(("start", self._start))
+            evs.append(("stop", self._stop))
+        return evs
+
+    def _start(self):
+        self.lifecycle_calls += 1
+        self.log.append(("start", "src", self.loop.time(), None))
+        self.source.start()
+
+    def _stop(self):
+        self.lifecycle_calls += 1
+        self.log.append(("stop", "src", self.loop.time(), None))
+        self.source.stop()
+
+    def closing_hook(self):
+        if self.source.stopped:
+            self.source.start()
 
     def closing_events(self):
         if self.to_create:
             return ("create", self._create)
         return None
 
+    def _rel(self, x):
+        return x.replace(self.tmpdir, "<dir>") if self.tmpdir else x
+
+    def make_sink_fn(self, kind, name):
+        inner = super().make_sink_fn(kind, name)
+        return lambda x: inner(self._rel(x))
+
     def _create(self):
         f = self.to_create.pop(0)
         self.present.append(f)
-        self.log.append(("create", "dir", self.loop.time(), f))
+        self.log.append(("create", "dir", self.loop.time(), self._rel(f)))
 
     def check_step(self):
         return self._check(False)
@@ -266,8 +311,8 @@ class DirScenario(Scenario):
             clause = "unsorted-poll" if sorted(got) == sorted(want[:len(got)]) else "order"
             return Violation(clause, "filenames", "", dict(info, want=want))
         if final:
-            if sorted(got) != sorted(self.present):
-                return Violation("loss", "filenames", "", dict(info, present=self.present))
+            if sorted(got) != sorted(self._rel(x) for x in self.present):
+                return Violation("loss", "filenames", "", dict(info, present=[self._rel(x) for x in self.present]))
         return None
 
 
@@ -314,12 +359,15 @@ def factory(key):
     if key[0] == "text":
         _, delim, chunks, from_end, pre, real, maxticks = key[:7]
         lifecycle = key[7] if len(key) > 7 else 0
+        kind = key[8] if len(key) > 8 else None
         if real:     # byte-level chunks travel as latin-1 text in the (JSON-able) key
             chunks = tuple(c.encode("latin-1") for c in chunks)
         return lambda: TextScenario(delim=delim, chunks=chunks, from_end=from_end, pre=pre, real=real,
-                                    horizon=maxticks * POLL, lifecycle=lifecycle)
-    _, pre, create, orders, kind = key
-    return lambda: DirScenario(pre=pre, create=create, orders=orders, kind=kind, horizon=2.0)
+                                    horizon=maxticks * POLL, lifecycle=lifecycle, kind=kind)
+    _, pre, create, orders, kind = key[:5]
+    pattern = key[5] if len(key) > 5 else None
+    lifecycle = key[6] if len(key) > 6 else 0
+    return lambda: DirScenario(pre=pre, create=create, orders=orders, kind=kind, horizon=2.0, pattern=pattern, lifecycle=lifecycle)
 
 
 def plan(ctx):
@@ -365,6 +413,28 @@ def plan(ctx):
                 jobs.append((("dir", (), create, orders, "sync"), 0))
                 if T:
                     jobs.append((("dir", (names[2],) if k == 2 else (), create, orders, "future"), 1))
+    # stop() while the records of one read are being handed to a slow consumer: the rest of that read is still delivered
+    for delim in ("\n", "ab"):
+        jobs.append((("text", delim, ("x" + delim + "y" + delim + "z" + delim,), False, "", False, 2, 2, "future"), 1))
+        jobs.append((("text", delim, ("x" + delim + "y" + delim, "z" + delim), False, "", False, 2, 1, "future"), 1))
+    # a directory path instead of a pattern; a pattern spanning two directories (same file name in both);
+    # stop() / start() between polls (what has been emitted stays emitted)
+    for create in itertools.permutations(names[:2]):
+        jobs.append((("dir", (), create, (0, 1), "sync", "<dir>"), 0))
+        jobs.append((("dir", (names[2],), create, (1, 0), "sync", "/fake/*.csv", 2), 0))
+        if T:
+            jobs.append((("dir", (names[2],), create, (1, 0), "future", "/fake/*.csv", 3), 1))
+    two = ("/fake/a/data.csv", "/fake/b/data.csv", "/fake/a/other.csv")
+    for create in itertools.permutations(two[:2]):
+        jobs.append((("dir", (two[2],), create, (0, 1), "sync", "/fake/*/*.csv"), 0))
+        jobs.append((("dir", (), create, (1, 0), "sync", "/fake/*/data.csv", 1), 0))
+    # records containing other line-boundary characters; delimiters that are special in regular expressions
+    for delim, txts in (("\n", ("x\ry\n", "\x0c\nx\n", "x\r\n\ry\n", "\x1c\x85\n")), ("|", ("x|y|", "|x|", "x|y")), (".", ("x.y.", "..", "x.")),
+                        ("$", ("x$y$",)), ("a.", ("xa.ya.", "xaba."))):
+        for txt in txts:
+            for chunks in compositions(txt):
+                if len(chunks) <= 3:
+                    jobs.append((("text", delim, chunks, False, "", False, min(len(chunks), 2)), 0))
     return jobs
 
 
